@@ -98,7 +98,15 @@ func evaluateConditionWithValue(env envs.Environment, resolver Resolver, c *Cond
 		return numberComparison(val.(decimal.Decimal), c.operator, asNumber)
 	case assets.FieldTypeDatetime:
 		asDate, _ := c.ValueAsDate(env)
-		return dateComparison(val.(time.Time), c.operator, asDate)
+
+		// dates are compared by calendar day in the query value's timezone (which is the environment's, unless the value
+		// has its own).. a day there isn't necessarily 24 hours long, and might not have a midnight, so take the day from
+		// the query text rather than from the time it was parsed into
+		queryDay, err := envs.DateFromString(env, c.value)
+		if err != nil {
+			queryDay = dates.ExtractDate(asDate)
+		}
+		return dateComparison(val.(time.Time), c.operator, queryDay, asDate.Location())
 	default:
 		isName := c.propKey == AttributeName // needs to be handled as special case
 		return textComparison(val.(string), c.operator, c.value, isName)
@@ -144,22 +152,22 @@ func numberComparison(objectVal decimal.Decimal, op Operator, queryVal decimal.D
 	}
 }
 
-func dateComparison(objectVal time.Time, op Operator, queryVal time.Time) bool {
-	utcDayStart, utcDayEnd := dates.DayToUTCRange(queryVal, queryVal.Location())
+func dateComparison(objectVal time.Time, op Operator, queryDay dates.Date, tz *time.Location) bool {
+	cmp := dates.ExtractDate(objectVal.In(tz)).Compare(queryDay)
 
 	switch op {
 	case OpEqual:
-		return (objectVal.Equal(utcDayStart) || objectVal.After(utcDayStart)) && objectVal.Before(utcDayEnd)
+		return cmp == 0
 	case OpNotEqual:
-		return !((objectVal.Equal(utcDayStart) || objectVal.After(utcDayStart)) && objectVal.Before(utcDayEnd))
+		return cmp != 0
 	case OpGreaterThan:
-		return objectVal.After(utcDayEnd) || objectVal.Equal(utcDayEnd)
+		return cmp > 0
 	case OpGreaterThanOrEqual:
-		return objectVal.After(utcDayStart) || objectVal.Equal(utcDayStart)
+		return cmp >= 0
 	case OpLessThan:
-		return objectVal.Before(utcDayStart)
+		return cmp < 0
 	case OpLessThanOrEqual:
-		return objectVal.Before(utcDayEnd)
+		return cmp <= 0
 	default:
 		panic(fmt.Sprintf("can't query date fields with %s", op))
 	}
